@@ -17,6 +17,7 @@ import (
 	"os"
 	"path/filepath"
 	"runtime/debug"
+	"slices"
 	"sort"
 	"strconv"
 	"strings"
@@ -360,6 +361,18 @@ func keyOf(err error) string {
 	return ""
 }
 
+// regressionFiles lists the saved cases of the property.  VERIF_SKIP_SEED_REGRESSIONS=1
+// leaves out the cases harvested from seeded changes (seed-*.json): it is set when the
+// generated search alone is to be measured against a new seeded change.
+func regressionFiles() []string {
+	files, _ := filepath.Glob(filepath.Join(verifRoot, "regressions", property, "*.json"))
+	sort.Strings(files)
+	if os.Getenv("VERIF_SKIP_SEED_REGRESSIONS") == "1" {
+		files = slices.DeleteFunc(files, func(f string) bool { return strings.HasPrefix(filepath.Base(f), "seed-") })
+	}
+	return files
+}
+
 // Run executes one target: replay mode, regression cases, then generation.
 func Run[C any](t *testing.T, tg Target[C]) {
 	t.Helper()
@@ -380,9 +393,7 @@ func Run[C any](t *testing.T, tg Target[C]) {
 
 	// regression tier: saved minimal cases, run first, in every shard 0
 	if shard == 0 {
-		files, _ := filepath.Glob(filepath.Join(verifRoot, "regressions", property, "*.json"))
-		sort.Strings(files)
-		for _, f := range files {
+		for _, f := range regressionFiles() {
 			runFile(t, &tg, f, "regression")
 		}
 	}
@@ -580,9 +591,7 @@ func ReplayOnly[C any](t *testing.T, tg Target[C]) {
 		return
 	}
 	if shard == 0 {
-		files, _ := filepath.Glob(filepath.Join(verifRoot, "regressions", property, "*.json"))
-		sort.Strings(files)
-		for _, f := range files {
+		for _, f := range regressionFiles() {
 			runFile(t, &tg, f, "regression")
 		}
 	}
